@@ -69,5 +69,37 @@ namespace cdsv {
         }
     };
 
+    // A mutated / broken container can corrupt itself so that a later call never returns (e.g. a cycle in a free list).
+    // If violations have already been recorded and no run has completed for `secs` seconds, the guard writes the result
+    // JSON (witnesses included) and ends the process with exit code 1. A hang WITHOUT a recorded violation is left to the
+    // watchdog of check.py (kill, re-run, "hang:<variant>").
+    class HangGuard {
+        std::atomic<uint64_t> m_progress{ 0 };
+        std::atomic<bool> m_stop{ false };
+        std::thread m_thread;
+    public:
+        HangGuard( const char* harness, double secs )
+        {
+            std::string h = harness;
+            m_thread = std::thread( [this, h, secs]() {
+                uint64_t last = m_progress.load();
+                double since = wall_now();
+                while ( !m_stop.load()) {
+                    timespec t = { 0, 200000000 };
+                    nanosleep( &t, nullptr );
+                    uint64_t cur = m_progress.load();
+                    if ( cur != last ) { last = cur; since = wall_now(); continue; }
+                    if ( wall_now() - since > secs && violation_total() > 0 ) {
+                        fprintf( stderr, "@@hang-after-violation no run completed for %.0f s; writing results\n", secs );
+                        finish( h.c_str());
+                        _exit( 1 );
+                    }
+                }
+            } );
+        }
+        ~HangGuard() { m_stop.store( true ); m_thread.join(); }
+        void tick() { m_progress.fetch_add( 1, std::memory_order_relaxed ); }
+    };
+
 } // namespace cdsv
 #endif
